@@ -38,9 +38,10 @@ RULE = ("a case = loop configuration × environment script × worker programs (s
         "task_interrupt, a loop stopped with tasks left, cancel of the current task, a done future yielded; "
         "distinct = hash of the case JSON")
 
-C09_KINDS = ("runnable_tasks", "blocked_tasks", "all_tasks !=", "task_is_runnable", "ready_find-raised")
+C09_KINDS = ("runnable_tasks", "blocked_tasks", "all_tasks !=", "task_is_runnable", "ready_find-raised",
+             "event loop crashed")
 TRIVIAL_TAGS = {"obs-outside", "obs-callback", "obs-in-task", "future-setres", "task_from_handle-misclassifies",
-                "case-aborted-after-violation"}
+                "case-aborted-after-violation", "case-hung-after-violation"}
 
 
 # ---------------------------------------------------------------------------------------
